@@ -18,6 +18,7 @@ from jax2onnx._compat.jax import (
 import jax.numpy as jnp
 
 from jax2onnx.converter.typing_support import LoweringContextProtocol
+from jax2onnx.ir_utils import numpy_dtype_to_ir
 from jax2onnx.plugins._post_check_onnx_graph import expect_graph as EG
 from jax2onnx.plugins.jax._autodiff_utils import register_jvp_via_jax_jvp
 from jax2onnx.plugins.jax.numpy._common import (
@@ -209,7 +210,19 @@ class JnpMeanPlugin(PrimitiveLeafPlugin):
             axes_attr = None  # reduce all
 
         # Build ReduceMean
-        # Note: we skip casting for now as abstract_eval handles weak types usually
+        # ReduceMean is only defined for floating tensors: integer / boolean
+        # operands are cast to the (floating) result dtype first, as jnp.mean does.
+        operand_dtype = np.dtype(getattr(operand_var.aval, "dtype", np.float32))
+        out_dtype = np.dtype(getattr(out_var.aval, "dtype", operand_dtype))
+        if operand_dtype != out_dtype and not np.issubdtype(operand_dtype, np.floating):
+            cast_val = ctx.builder.Cast(
+                operand_val,
+                _outputs=[ctx.fresh_name("mean_cast")],
+                to=int(numpy_dtype_to_ir(out_dtype).value),
+            )
+            if getattr(operand_val, "shape", None) is not None:
+                cast_val.shape = operand_val.shape
+            operand_val = cast_val
 
         inputs = [operand_val]
         if axes_attr is not None:
